@@ -116,6 +116,8 @@ def tok_case(draw, maxmax=8, maxlen=64, init="any",
     }
     if case["kind"] != "char" and draw(st.booleans()):
         case["src"] = "duck"  # a source that does not derive from DataSource
+    if draw(rarely(6)):
+        case["skip"] = draw(st.text(alphabet="01", min_size=1, max_size=5))  # frames read from the source beforehand
     if draw(rarely(12)):
         # positional coincidence across uses: the earlier stream ends exactly on a cut at frame k-1,
         # the later one has its first (short) activity starting exactly at frame k
